@@ -1,5 +1,6 @@
 import MosdnsVerif.Lemmas.C20Inv
 import MosdnsVerif.Model.C20Pool
+import MosdnsVerif.Model.C20Hold
 import MosdnsVerif.Model.C20Time
 import MosdnsVerif.Model.C20Copy
 import MosdnsVerif.Refine.C20
@@ -180,6 +181,135 @@ theorem release_without_drain_is_wrong :
   ⟨rfl, _, rfl, rfl, rfl⟩
 
 end Pool
+
+/-! ### Whose tick it is
+
+The workers of a call outlive it when the caller's context ends. The tick of
+the timer a call borrowed must release THAT call's secondary, not a goroutine
+left over from an earlier call that still waits on the same pooled timer. -/
+section Hold
+open Model.C20Hold
+
+theorem hold_step_inv (s s' : Model.C20Hold.St) (e : Ev) (o : Option Nat) (hi : Model.C20Hold.inv s)
+    (hs : Model.C20Hold.step true s e = some (s', o)) :
+    Model.C20Hold.inv s' ∧ ∀ w, o = some w → s.holder = some w := by
+  cases e with
+  | borrow c =>
+    simp only [Model.C20Hold.step] at hs
+    split at hs
+    · rename_i hn
+      simp only [Option.some.injEq, Prod.mk.injEq] at hs
+      obtain ⟨rfl, rfl⟩ := hs
+      refine ⟨?_, by intro w h; cases h⟩
+      intro w hw
+      have := hi w hw
+      rw [hn] at this; cases this
+    · cases hs
+  | wait c =>
+    simp only [Model.C20Hold.step, Bool.not_true, Bool.or_false] at hs
+    split at hs
+    · rename_i hc
+      simp only [Option.some.injEq, Prod.mk.injEq] at hs
+      obtain ⟨rfl, rfl⟩ := hs
+      refine ⟨?_, by intro w h; cases h⟩
+      intro w hw
+      simp only [List.mem_append, List.mem_singleton] at hw
+      cases hw with
+      | inl h => exact hi w h
+      | inr h => subst h; simpa using hc
+    · cases hs
+  | leave c =>
+    simp only [Model.C20Hold.step, Option.some.injEq, Prod.mk.injEq] at hs
+    obtain ⟨rfl, rfl⟩ := hs
+    refine ⟨?_, by intro w h; cases h⟩
+    intro w hw
+    exact hi w (List.mem_filter.mp hw).1
+  | release c =>
+    simp only [Model.C20Hold.step, Bool.not_true, Bool.false_or] at hs
+    split at hs
+    · rename_i hc
+      simp only [Option.some.injEq, Prod.mk.injEq] at hs
+      obtain ⟨rfl, rfl⟩ := hs
+      refine ⟨?_, by intro w h; cases h⟩
+      intro w hw
+      simp only [Bool.and_eq_true, decide_eq_true_eq, Bool.not_eq_true', List.contains_eq_mem, decide_eq_false_iff_not] at hc
+      have h1 := hi w hw
+      rw [hc.1] at h1
+      cases h1
+      exact absurd hw hc.2
+    · cases hs
+  | fire =>
+    simp only [Model.C20Hold.step] at hs
+    split at hs
+    · cases hw : s.waiters with
+      | nil =>
+        rw [hw] at hs
+        simp only [Option.some.injEq, Prod.mk.injEq] at hs
+        obtain ⟨rfl, rfl⟩ := hs
+        refine ⟨?_, by intro w h; cases h⟩
+        intro w hmem
+        simp at hmem
+      | cons w ws =>
+        rw [hw] at hs
+        simp only [Option.some.injEq, Prod.mk.injEq] at hs
+        obtain ⟨rfl, rfl⟩ := hs
+        refine ⟨?_, ?_⟩
+        · intro x hx
+          exact hi x (by rw [hw]; exact List.mem_cons_of_mem _ hx)
+        · intro x hx
+          cases hx
+          exact hi w (by rw [hw]; exact List.mem_cons_self ..)
+    · cases hs
+
+/-- **The tick of a call's threshold timer goes to that call.** After any history of
+borrows, waits, releases and ticks - including calls that ended while their
+workers were still around - whoever receives a tick belongs to the call that
+holds the timer at that moment, provided the goroutine that waits on the timer
+is the one that borrows and releases it (`c20TimerHeldByItsReader`). -/
+theorem tick_goes_to_the_holder (es : List Ev) : ∀ (s s' : Model.C20Hold.St), Model.C20Hold.inv s →
+    ∀ (got : List Nat) (e : Ev) (s'' : Model.C20Hold.St) (w : Nat),
+    Model.C20Hold.run true s es = some (s', got) →
+    Model.C20Hold.step true s' e = some (s'', some w) → s'.holder = some w := by
+  induction es with
+  | nil =>
+    intro s s' hi got e s'' w hr hs
+    simp only [Model.C20Hold.run, Option.some.injEq, Prod.mk.injEq] at hr
+    obtain ⟨rfl, _⟩ := hr
+    exact (hold_step_inv s s'' e (some w) hi hs).2 w rfl
+  | cons e0 es ih =>
+    intro s s' hi got e s'' w hr hs
+    simp only [Model.C20Hold.run] at hr
+    split at hr
+    · cases hr
+    · rename_i s1 o hs1
+      split at hr
+      · cases hr
+      · rename_i s2 got2 hr2
+        simp only [Option.some.injEq, Prod.mk.injEq] at hr
+        obtain ⟨rfl, _⟩ := hr
+        exact ih s1 s2 (hold_step_inv s s1 e0 o hi hs1).1 got2 e s'' w hr2 hs
+
+theorem tick_goes_to_the_holder_from_init (readerHolds : Bool) (hh : readerHolds = true) (es : List Ev)
+    (s' s'' : Model.C20Hold.St) (got : List Nat) (e : Ev) (w : Nat)
+    (hr : Model.C20Hold.run readerHolds Model.C20Hold.init es = some (s', got))
+    (hs : Model.C20Hold.step readerHolds s' e = some (s'', some w)) : s'.holder = some w := by
+  subst hh
+  exact tick_goes_to_the_holder es _ s' (by intro w hw; cases hw) got e s'' w hr hs
+
+/-- If the caller borrows and releases the timer while the goroutine it started
+waits on it, it is wrong: call 1 is abandoned by its caller while its secondary
+waits for the threshold (release 1 with 1 still waiting); call 2 gets the same
+timer, its secondary waits too; the tick goes to call 1's leftover goroutine and
+call 2's threshold never passes. -/
+theorem caller_held_timer_is_wrong :
+    (Model.C20Hold.run false Model.C20Hold.init [.borrow 1, .wait 1, .release 1, .borrow 2, .wait 2, .fire]).map
+      (fun r => (r.1.holder, r.2, r.1.waiters, r.1.armed)) = some (some 2, [1], [2], false) := by decide
+
+/-- ... and with the timer held by its reader that history is not possible. -/
+theorem reader_held_timer_refuses_it :
+    Model.C20Hold.run true Model.C20Hold.init [.borrow 1, .wait 1, .release 1] = none := by decide
+
+end Hold
 
 /-! ### "Within the threshold" means within the CONFIGURED threshold
 
@@ -496,7 +626,7 @@ theorem facts_guard :
     Gen.Facts.c20RespChanCap = some 2 ∧ Gen.Facts.c20FirstSelectCases = some true ∧
     Gen.Facts.c20SecondSelectCases = some true ∧ Gen.Facts.c20CollectLoop = some true ∧
     Gen.Facts.c20ThresholdTimerFromPool = some true ∧ Gen.Facts.c20ReleaseTimerDrains = some true ∧
-    Gen.Facts.c20GetTimerOnlyResets = some true ∧
+    Gen.Facts.c20GetTimerOnlyResets = some true ∧ Gen.Facts.c20TimerHeldByItsReader = some true ∧
     Gen.Facts.c20CopyToQueryDeep = some true ∧ Gen.Facts.c20WorkersRunOnCopies = some true := by decide
 
 /-! ### Non-vacuity: an in-time primary with a finished standby secondary; a slow primary -/
